@@ -1458,10 +1458,17 @@ class SSHClientProcess(SSHProcess[AnyStr], SSHClientStreamSession[AnyStr]):
         if stdin:
             await self._create_reader(stdin, bufsize, send_eof, recv_eof)
 
+        # Join stderr with stdout before stdout gets its new target, so
+        # that stderr data which has already been received goes to that
+        # target along with the data received on stdout, ahead of an EOF
+        if stderr == STDOUT:
+            await self._create_writer(stderr, bufsize, send_eof, recv_eof,
+                                      EXTENDED_DATA_STDERR)
+
         if stdout:
             await self._create_writer(stdout, bufsize, send_eof, recv_eof)
 
-        if stderr:
+        if stderr and stderr != STDOUT:
             await self._create_writer(stderr, bufsize, send_eof, recv_eof,
                                       EXTENDED_DATA_STDERR)
 
